@@ -91,6 +91,11 @@ var (
 // If there exists a pointer to v, the pointer to v is also tested.
 func valueIsUnpacker(v reflect.Value) (reflect.Value, bool) {
 	for {
+		if v.Kind() == reflect.Interface && v.IsNil() {
+			// a field of one of the Unpacker interface types holding nothing:
+			// there is no value whose Unpack could be called
+			break
+		}
 		if implementsUnpacker(v.Type()) {
 			return v, true
 		}
@@ -105,6 +110,11 @@ func valueIsUnpacker(v reflect.Value) (reflect.Value, bool) {
 }
 
 func typeIsUnpacker(t reflect.Type) (reflect.Value, bool) {
+	if t.Kind() == reflect.Interface {
+		// an interface type can not be instantiated, whatever its method set
+		return reflect.Value{}, false
+	}
+
 	if implementsUnpacker(t) {
 		return reflect.New(t).Elem(), true
 	}
